@@ -1,5 +1,6 @@
 import Driver.Codec
 import Driver.Tracer
+import Driver.Journal
 /-
   Model driver: one input line ↦ one output line (see DESIGN.md §2.6).
 -/
@@ -7,6 +8,7 @@ open Artela Artela.Codec
 
 structure DState where
   tr : Tracer := {}
+  j : Driver.JState := {}
 
 def dispatch (st : DState) (toks : List String) : DState × String :=
   match toks with
@@ -16,6 +18,18 @@ def dispatch (st : DState) (toks : List String) : DState × String :=
     let (tr, out) := Driver.tracerOp st.tr rest
     ({ st with tr := tr }, out)
   | "Q" :: rest => (st, Driver.tracerQuery st.tr rest)
+  | "JE" :: rest =>
+    match Driver.journalEnv rest with
+    | some j => ({ st with j := j }, "ok")
+    | none => (st, "bad-op")
+  | "J" :: rest =>
+    let (j, tr, out) := Driver.journalOp st.j st.tr rest
+    ({ st with j := j, tr := tr }, out)
+  | ["W"] => (st, s!"reads={st.j.work.reads}")
+  | ["S", "jeffect", op] => (st, Driver.specJEffect op)
+  | "S" :: "solpacked" :: rest => (st, Driver.specSolPacked rest)
+  | "S" :: "solstring" :: rest => (st, Driver.specSolString rest)
+  | ["S", "cursor-at-rest"] => (st, "-")
   -- C16 specification: repeated runs of one history give identical answers (the model is a function)
   | ["S", "det"] => (st, "same")
   | _ => (st, "bad-op")
